@@ -221,7 +221,15 @@ def kind_contradiction(check: Check, repo: Repo, rule: str = "KIND-CONTRADICTION
             root = ap0[0]
             starts = [m for m, l in cfg.succ[tnode] if l and l[0] == "cond" and l[2] is False]
             rebinding = lambda m: m.kind == "for" and root in {x.id for x in ast.walk(m.ast.target) if isinstance(x, ast.Name)}  # noqa: E731
-            reach = cfg.reachable(starts, follow=no_exc, avoid=rebinding)
+            ttext = unparse(tnode.ast)
+
+            def consistent(a_, b_, label, ttext=ttext):
+                # we are on the path where the check failed: a later true outcome of the same test is infeasible
+                if not no_exc(a_, b_, label):
+                    return False
+                return not (label and label[0] == "cond" and label[2] is True and unparse(label[1]) == ttext)
+
+            reach = cfg.reachable(starts, follow=consistent, avoid=rebinding)
             hits = []
             n_calls = 0
             for call, target in cg.callees(fn):
@@ -324,11 +332,12 @@ def kind_attr(check: Check, repo: Repo, rule: str = "KIND-ATTR") -> None:
     )
     classes = ClassIndex(repo)
     ctx = classes.get("type.validate", "SchemaValidationContext")
+    kind_preds = set(predicate_classes(repo)) | {"is_directive", "is_schema"}
     n = 0
     for fn in ctx.methods().values():
         cfg = CFG(fn)
         flow: FactFlow | None = None
-        tests = [t for t in cfg.nodes if t.kind == "test" and isinstance(t.ast, ast.Call) and call_name(t.ast).startswith("is_")
+        tests = [t for t in cfg.nodes if t.kind == "test" and isinstance(t.ast, ast.Call) and call_name(t.ast) in kind_preds
                  and len(t.ast.args) == 1 and isinstance(t.ast.args[0], ast.Name)]
         for t in tests:
             x = t.ast.args[0].id
